@@ -337,6 +337,15 @@ def run_case(ctx, case):
             ctx.check("grid_attached", r.uxgrid is not None, sig, dict(det, why="own operation returned an array without a grid"))
             if r.uxgrid is None:
                 break
+            if nm.startswith("grid_") and gdim(a) == "n_face":
+                # indexing the face dimension selects exactly the indexed faces, in order: the values are what plain xarray
+                # gives for the same indexer (node / edge indexing is inclusive - more elements come back - and is not compared)
+                try:
+                    s2 = apply_own(nm, s, other, np.random.default_rng([case["dseed"], step]))
+                    okv, why = same_values(r, s2)
+                    ctx.check("values_equal_shadow", okv, sig, dict(det, why=why))
+                except Exception as e:
+                    ctx.observe("shadow_rejected:" + nm)
             a, s, grid_now = r, shadow_of(r), r.uxgrid
             changed_elem = True
             done.append(nm)
